@@ -584,14 +584,20 @@ func oneCounted(r *mc.Run, cp *capture, c *Case, seen map[string]int) {
 	}
 	r.Add("violating_cases", 1)
 	cc := *c
-	r.Violate(class, msg, cc, func() bool {
-		// the planners walk Go maps; the same plan must come back within 200 re-plans
-		for i := 0; i < 200; i++ {
-			c2, _, _ := evaluate(cp, &cc)
-			if c2 == clause {
-				return true
-			}
+	// Every observed plan is a real behaviour of the planner, whatever order the runtime picked
+	// for its map walks, so the verdict stands on its own.  Reproduction is attempted and recorded.
+	again := -1
+	for i := 1; i <= 200; i++ {
+		if c2, _, _ := evaluate(cp, &cc); c2 == clause {
+			again = i
+			break
 		}
-		return false
-	})
+	}
+	if again > 0 {
+		msg += fmt.Sprintf(" | reproduced after %d re-plan(s)", again)
+	} else {
+		msg += " | not reproduced in 200 re-plans (depends on Go map iteration order inside the planner)"
+		r.Add("violations_not_reproduced_in_200_replans", 1)
+	}
+	r.Violate(class, msg, cc, nil)
 }
